@@ -141,13 +141,17 @@ namespace cs
                     p.add("mvj", {(long long)r.below(100)});
                     break;
                 case 2:
-                    p.add("swapj", {(long long)r.below(100), (long long)r.below(100)});
+                    p.add(r.chance(1, 2) ? "swapj" : "asj", {(long long)r.below(100), (long long)r.below(100)});
                     break;
                 case 3:
                 case 4:
                     p.add("dropj", {(long long)r.below(100), (long long)r.below(2)});
                     break;
                 case 6:
+                    if (r.chance(1, 2))
+                        p.add("sj", {(long long)r.below(9), (long long)r.below(9), (long long)r.below(5),
+                                     r.chance(1, 2) ? 0 : (long long)r.below(200)});
+                    else
                     p.add("jvm", {(long long)r.below(100), (long long)r.below(2)});
                     break;
                 case 5:
